@@ -23,6 +23,7 @@ pub mod c14b;
 pub mod c14c;
 pub mod c16;
 pub mod c18;
+pub mod c19;
 pub mod c20;
 pub mod xfer;
 
@@ -44,6 +45,7 @@ pub fn run(prop: &str, report: &Report) -> i32 {
         "C14" => c14::run(report),
         "C16" => c16::run(report),
         "C18" => c18::run(report),
+        "C19" => c19::run(report),
         "C20" => c20::run(report),
         _ => {
             eprintln!("unknown property {prop}");
@@ -87,6 +89,8 @@ pub fn replay(f: &Failure) -> i32 {
         "c13" => crate::core::replay_case(f, c13::case),
         "c16" => crate::core::replay_case(f, c16::case),
         "c18" => crate::core::replay_case(f, c18::case),
+        "c19" | "c19-enum" => crate::core::replay_case(f, c19::case),
+        "c19-fallback" => crate::core::replay_case(f, c19::case_degraded),
         "c20" => crate::core::replay_case(f, c20::case),
         other => {
             eprintln!("no replay handler for check {other}");
